@@ -118,7 +118,31 @@ def _cases(draw, tier):
     if draw(st.integers(0, 3)) == 0:
         nt = draw(st.integers(2, 3))
         case["threads"] = {"n": nt, "assign": [draw(st.integers(0, nt - 1)) for _ in steps],
-                           "schedule": draw(st.lists(st.sampled_from([0, 0, 0, 0, 1, 2]), min_size=20, max_size=400))}
+                           # (gap, target): let `gap` yield points pass, then hand the run token to another thread; gaps are
+                           # drawn on several scales so that switches land inside cache lookups, code generation and calls alike
+                           "schedule": [[draw(st.sampled_from([0, 1, 2, 3, 5, 8, 13, 30, 80, 200, 600])), draw(st.integers(1, 2))]
+                                        for _ in range(draw(st.integers(5, 60)))]}
+        if draw(st.booleans()):
+            # dense schedule: a switch every g yield points for the whole run (races between a check and the store after it)
+            case["threads"]["schedule"] = [[draw(st.integers(0, 7)), draw(st.integers(1, 2))]] * 800
+        if draw(st.booleans()):
+            # "twin" threads: thread 1 mirrors the operator steps of thread 0 on re-ordered copies of the same operands, so both
+            # threads generate code for the same operator and the same blade sets (different key order) at the same time
+            npool = len(pool)
+            for o in list(pool):
+                case["pool"].append({"keys": o["keys"][::-1], "vals": o["vals"][::-1]})
+            base = [s_ for s_ in steps if s_["k"] in ("bin", "un")][:12]
+            twin = []
+            for n_, s_ in enumerate(base):
+                t_ = dict(s_)
+                t_["i"] = s_["i"] + npool
+                if "j" in s_ and n_ % 2:
+                    t_["j"] = s_["j"] + npool
+                twin.append(t_)
+            case["steps"] = base + twin
+            case["threads"]["n"] = 2
+            case["threads"]["assign"] = [0] * len(base) + [1] * len(twin)
+            case["threads"]["twin"] = True
     return case
 
 
@@ -363,6 +387,8 @@ def evaluate(case):
         snaps.extend(_snapshot(m) for m in mades)
         _check_snapshots(snaps, {"k": "threads"})
         labels.append("threads")
+    if threads and threads.get("twin"):
+        labels.append("threads:twin")
     if reorder:
         labels.append("reorder")
     if samename:
